@@ -3,6 +3,8 @@ import Afkak.Monitor.C11
 import AfkakProofs.Client.Net
 import AfkakProofs.Client.Timers
 import AfkakProofs.Client.MonC11
+import AfkakProofs.Client.B_ComposeBound
+import AfkakProofs.Client.B_ComposeResend
 import AfkakProps.Open.C11
 /-!
 # C11 — every broker request is bounded by the client timeout
@@ -167,6 +169,88 @@ example :
     s2.2.take 2 = [.bcCancel 0, .fired 0 (some .cancelled)] ∧ Ob.bcDisconnect 0 ∈ s2.2 ∧
     s3.2 = [.late 0] := by decide +kernel
 
+/-! ## C11 end to end: the client model composed with one broker-client model per broker (`Afkak/ClientCompose.lean`) -/
+
+/-- **Whatever the broker clients below do** - connection attempts that fail (at once or later), connections that
+    drop, re-sent requests, replies that arrive late or never, reconnect timers racing the request timers - a
+    request issued through the client never outlives its bound: in every reachable state of the COMPOSED model
+    (client model × one broker-client model per broker client; events are network-level: API calls, `connOk /
+    connFail / lost / reply` per broker connection, clock) every unresolved request's bound `issued + max(timeout,
+    min_timeout)` is now or in the future, i.e. the request was resolved (timed out if nothing else) when the clock
+    reached it.  (`C11_resolved_by_bound` carried through the composition: the client component of the composed
+    state only ever moves by client steps, `AfkakProofs/Client/B_ComposeBound.lean`; runs in which no step exhausts
+    the interpreter's fuel.) -/
+theorem C11_composed_resolved_by_bound (cfg : Afkak.ClientCompose.Cfg) (h0 : 0 ≤ cfg.cl.timeout) (h1 : 0 ≤ cfg.cl.retryDelay)
+    (evs : List Afkak.ClientCompose.Ev) (hnf : Afkak.ClientCompose.NoFuelRun cfg {} evs) :
+    let s := Afkak.ClientCompose.run cfg {} evs
+    ∀ q ∈ s.cl.reqs, q.pending = true → s.cl.now ≤ q.due := by
+  intro s q hq hp
+  obtain ⟨m, hI⟩ := Afkak.ClientCompose.run_genF cfg (Afkak.ClientCompose.stepInvF cfg h0 h1) evs {}
+    ⟨{}, StepInv.init cfg.cl⟩ hnf
+  exact hI.nover _ (hI.inv.pendTimer q hq hp)
+
+/-! Non-vacuity: a client that knows broker 1 sends a fetch; the broker client's connection attempt is refused,
+    it backs off (1/2 s) and tries again, that attempt never completes; at the bound (10 s) the request is failed
+    with `RequestTimedOutError` and, with disconnect_on_timeout, the broker client is told to disconnect - no
+    step runs out of fuel. -/
+example :
+    let cfg : Afkak.ClientCompose.Cfg := { cl := { timeout := 10, disconnectOnTimeout := true, bootHosts := [("boot", 9092)] }, bc := ⟨fun _ => 1/2⟩ }
+    let evs : List Afkak.ClientCompose.Ev :=
+      [.api { shuffles := [[], [0]] } (.load 0 []), .api {} (.bootOk 0),
+       .api {} (.bootReply 0 (.metadata [⟨1, "h1", 9092⟩] [⟨"t", 0, [⟨0, 0, 1⟩]⟩])),
+       .api {} (.send 1 [("t", 0)] none true true), .connFail 0, .advance (1/2) [] [] {}, .advance (19/2) [] [] {}]
+    Afkak.ClientCompose.NoFuelRun cfg {} evs ∧
+    ((Afkak.ClientCompose.trace cfg {} evs).map (·.2)).drop 3 =
+      [[.cl (.bcNew 0 1 "h1" 9092), .cl (.mk 0 0 true (.payloads [0] [("t", 0)])), .cl (.setTimer (.mrtb 0) 10), .connect 0 "h1" 9092],
+       [.bc 0 (.setTimer (1/2))], [.connect 0 "h1" 9092],
+       [.cl (.bcCancel 0), .cl (.fired 0 (some .cancelled)), .cl (.result 1 (.failedPayloads [] [(0, .brokerError 7)])),
+        .cl (.bcDisconnect 0), .bc 0 (.fire 0 0 (.err .cancelled))]] := by
+  refine ⟨by decide +kernel, by decide +kernel⟩
+
+/-- **Disconnect-on-timeout, end to end** (the property's last sentence, with the broker-client model in place of
+    the "contract"): in the composed model, let request `k` of the client layer be outstanding on broker client
+    `b` (`rq`, not cancelled; correlation id `k`), `b` connected on connection `c`.  Routing the client layer's
+    timeout observations (`bcCancel k`, `fired k cancelled`, `bcDisconnect b` - what `C11_disconnect_on_timeout`
+    shows the timer's callback chain emits) to `b` makes `b` errback exactly that request at once, as the client
+    layer booked (the interface agrees: no `mismatch`), and tell connection `c` to close; when that connection has
+    gone (`lost b`) `b` asks for a new one iff another unanswered request remains; when it is established
+    (`connOk b`) exactly the remaining unanswered requests are written, each once, in issue order, and the
+    timed-out request is not among them.  (`Afkak.Compose.timeout_disconnect_resends` - the core of
+    `C10_timeout_disconnect_resends` - through `route` and the composed `step`.) -/
+theorem C11_composed_disconnect_resends (cfg : Afkak.ClientCompose.Cfg) (s : Afkak.ClientCompose.St) (cl : St)
+    (hi : Afkak.ClientCompose.AllSInv s) (hsr : s.syncRefuse = 0)
+    (b k : Nat) (q : Req) (x : Afkak.BrokerClient.St) (rq : Afkak.BrokerClient.Req) (c : Nat) (a : String × Int)
+    (hq : reqGet cl k = some q) (hqb : q.b = b) (hx : s.bcs[b]? = some x) (ha : s.addr[b]? = some a)
+    (hrq : rq ∈ x.reqs) (hid : rq.id = (k : Int)) (hlive : rq.cancelled = false)
+    (hp : x.proto = some c) (hlo : x.losing = false) (hwf : x.wfail = false) (env : Env) :
+    let r := Afkak.ClientCompose.route cfg cl s [.bcCancel k, .fired k (some .cancelled), .bcDisconnect b] [] []
+    let l := Afkak.ClientCompose.step cfg r.1 (.lost b env)
+    let o := Afkak.ClientCompose.step cfg l.1 (.connOk b [])
+    r.2.1 = [.bc b (.fire rq.serial rq.id (.err .cancelled)), .bc b (.lose c)] ∧
+    r.2.2 = Afkak.ClientCompose.syncOfCl [.bcCancel k, .fired k (some .cancelled), .bcDisconnect b] ∧
+    l.2 = (if Afkak.Compose.remaining x rq.id = [] then [] else [.connect b a.1 a.2]) ∧
+    (Afkak.Compose.remaining x rq.id ≠ [] →
+      o.2 = (Afkak.Compose.remaining x rq.id).map (fun r => Afkak.ClientCompose.Ob.bc b (.write x.nconn r.serial r.id))) ∧
+    rq.serial ∉ (Afkak.Compose.remaining x rq.id).map (·.serial) :=
+  Afkak.ClientCompose.timeout_disconnect_resends_composed cfg s cl hi hsr b k q x rq c a hq hqb hx ha hrq hid hlive hp hlo hwf env
+
+/-! Non-vacuity, on a whole composed run: two fetches on one connected broker client, the first times out at t=10
+    (disconnect_on_timeout): it is cancelled and the connection told to close; when the connection has gone the
+    broker client reconnects, and on the new connection the second request - and only it - is written again. -/
+example :
+    let cfg : Afkak.ClientCompose.Cfg := { cl := { timeout := 10, disconnectOnTimeout := true, bootHosts := [("boot", 9092)] }, bc := ⟨fun _ => 1/2⟩ }
+    let evs : List Afkak.ClientCompose.Ev :=
+      [.api { shuffles := [[], [0]] } (.load 0 []), .api {} (.bootOk 0),
+       .api {} (.bootReply 0 (.metadata [⟨1, "h1", 9092⟩] [⟨"t", 0, [⟨0, 0, 1⟩, ⟨0, 1, 1⟩]⟩])),
+       .api {} (.send 1 [("t", 0)] none true true), .connOk 0 [], .advance 5 [] [] {},
+       .api {} (.send 2 [("t", 1)] none true true), .advance 5 [] [] {}, .lost 0 {}, .connOk 0 []]
+    ((Afkak.ClientCompose.trace cfg {} evs).map (·.2)).drop 6 =
+      [[.cl (.mk 1 0 true (.payloads [0] [("t", 1)])), .cl (.setTimer (.mrtb 1) 15), .bc 0 (.write 0 1 1)],
+       [.cl (.bcCancel 0), .cl (.fired 0 (some .cancelled)), .cl (.result 1 (.failedPayloads [] [(0, .brokerError 7)])),
+        .cl (.bcDisconnect 0), .bc 0 (.fire 0 0 (.err .cancelled)), .bc 0 (.lose 0)],
+       [.connect 0 "h1" 9092], [.bc 0 (.write 1 1 1)]] := by
+  decide +kernel
+
 end Afkak.Props.C11
 
 /- OBLIGATIONS
@@ -179,6 +263,8 @@ C11_disconnect_on_timeout
 C11_model_traces_satisfy_monitor
 C11_resolved_by_bound
 C11_timeout_reported
+C11_composed_resolved_by_bound
+C11_composed_disconnect_resends
 -/
 /- OPEN_STATEMENTS
 -/
